@@ -681,7 +681,11 @@ static bool selfTest(string* why) {
     int t3 = -1;
     if (!c3.valid || refResolvable(c3, c3.parts[0], &t3) != 1 || t3 != 1) { *why = "unnamed behind a leading filler"; return false; }
     Config c4 = makeConfig("fam=simple;lay=iS;shape=ge;ref=u");
-    if (!c4.valid || refResolvable(c4, c4.parts[0], &t3) != -1) { *why = "unnamed numeric with first real field string must stay open"; return false; }
+    if (!c4.valid || refResolvable(c4, c4.parts[0], &t3) != -1) { *why = "unnamed numeric on a message without any numeric field stays open"; return false; }
+    Config c5 = makeConfig("fam=simple;lay=SN;shape=ge;ref=u");
+    if (!c5.valid || refResolvable(c5, c5.parts[0], &t3) != 1 || t3 != 1) { *why = "unnamed numeric with a string field first: the one numeric field"; return false; }
+    Config c6 = makeConfig("fam=simple;lay=SNN;shape=ge;ref=u");
+    if (!c6.valid || refResolvable(c6, c6.parts[0], &t3) != -1) { *why = "unnamed numeric, string first, two numeric fields: open"; return false; }
   }
   return true;
 }
